@@ -60,7 +60,10 @@ def handleTokens (inp : List String) (obs : String) : Verdict :=
             match outToks.mapM parseOutE with
             | none => fail "unparsable-observation" tags
             | some outs =>
-              let reported := outs.any (fun o => o.res != .ok && o.res != .eof)
+              let firstBad := outs.find? (fun o => o.res != .ok && o.res != .eof)
+              if firstBad.any (fun o => o.res == .panic || o.res == .hang) then
+                fail "a-call-panicked-before-any-error-was-returned" tags else
+              let reported := firstBad.isSome
               let hidden : Option String :=
                 if reported then none
                 else if outs.length ≠ w.ops.length then some "history-did-not-complete"
